@@ -51,6 +51,8 @@ func C19Scenario() *Scenario {
 		nClients := 1 + t.Pick(3, "clients")
 		nParents := 1 + t.Pick(2, "parents")
 		perClient := 3 + t.Pick(5, "calls")
+		earlierTimeout := t.Pick(3, "earlier-executor-with-longer-timeout") == 2
+		w.Cfg["earlierExecutorWithLongerTimeout"] = fmt.Sprint(earlierTimeout)
 		sig := map[string]string{"etag": fmt.Sprint(etag), "mode": map[bool]string{true: "strict", false: "loose"}[strict]}
 		w.Cfg["etag"], w.Cfg["mode"], w.Cfg["clients"] = sig["etag"], sig["mode"], fmt.Sprint(nClients)
 		var mu sync.Mutex
@@ -92,6 +94,16 @@ func C19Scenario() *Scenario {
 			// the code under test is the HTTP client: a genuine http.Transport over
 			// in-memory connections, so that its timeouts are net/http's own
 			http.DefaultTransport = PipeTransport(w)
+			if earlierTimeout {
+				// the controller's spec used to give this very hook (same controller, same
+				// URL) a much longer time limit: an executor was built for it then. The one
+				// under test is built after the edit and must go by its own limit.
+				old := *wh
+				old.Timeout = &metav1.Duration{Duration: 45 * time.Second}
+				if _, err := hooks.NewHook(&v1alpha1.Hook{Webhook: &old}, fmt.Sprintf("c19-%d", w.Incs), common.CompositeController, common.SyncHook); err != nil {
+					panic(err)
+				}
+			}
 			hook, err := hooks.NewHook(&v1alpha1.Hook{Webhook: wh}, fmt.Sprintf("c19-%d", w.Incs), common.CompositeController, common.SyncHook)
 			if err != nil {
 				panic(err)
